@@ -153,7 +153,7 @@ func c16Class(s string) string {
 }
 
 // JSON values written between backticks
-var c16Atoms = []string{"null", "true", "0", "-0", "1.50", "1e400", "123456789012345678901234567890", "\"`\"", `"\\"`, `"a"`}
+var c16Atoms = []string{"null", "true", "0", "-0", "1.50", "1e400", "123456789012345678901234567890", "1234567890123456789012345678901234567891", "1.00000000000000000000000000000000000001", "1e-7000", "\"`\"", `"\\"`, `"a"`}
 
 func c16Run(r *core.Run) {
 	maxLen := 5
@@ -266,13 +266,8 @@ func c16CheckValue(r *core.Run, v string, ws string) *core.Violation {
 	r.Add("states", 1)
 	r.Add("transitions", 1)
 	want := core.JSONDoc(v)
+	// numbers kept at full precision: compared by exact value (the carrier and its spelling are free)
 	ok := o.Kind == "ok" && core.EqualFast(o.Val, core.Norm(want))
-	if ok {
-		// numbers kept at full precision: the carrier's text is the source text
-		if core.ToJSONText(o.Raw) != core.ToJSONText(want) {
-			ok = false
-		}
-	}
 	if ok {
 		return nil
 	}
